@@ -5,6 +5,7 @@ func init() {
 		ID:    "C02",
 		Title: "@if/@elseif/@else renders exactly the first truthy branch",
 		Rules: []string{
+			"R-DIRMODE: after a bare directive (@else @end @break @continue) the lexer stays in text mode whatever follows; decided by case evaluation of directiveToken per (directive, next character)",
 			"R-TRUTH: the table (operand type -> returned expression) extracted from isTruthy equals the table of C02; the five constructs branch on isTruthy of their evaluated condition and on nothing else",
 			"R-BRANCH: in evalIfStmt/evalTernaryExp each branch evaluation is control-dependent on the truthiness of its own condition, branches are visited in source order, a chosen branch's result is returned at once, @else only after all conditions were falsy",
 			"R-PREFIXKW: for every directive keyword that is a proper prefix of another the lexer's continuation predicate is true exactly towards the longer keyword (decided by constant evaluation of the predicate)",
@@ -15,12 +16,14 @@ func init() {
 		NotDecided:  "TODO",
 		Assumptions: trustedBase,
 		Run: func(m *Model, s *Sink) {
+			m.RunDirMode(s, "R-DIRMODE") // text right after a bare @else / @end / @break / @continue stays text, also when it starts with "("
 			m.RunTruth(s, "R-TRUTH")
 			m.RunTruthUsers(s, "R-TRUTH")
 			m.RunEvalErr(s, "R-EVALERR") // a failing condition / body / sub-expression fails the render instead of being treated as a value
 			m.RunBranch(s, "R-BRANCH")
 			m.RunBlockEnd(s, "R-BLOCKEND")
 			m.RunBlockStart(s, "R-BLOCKSTART")
+			m.RunLoop(s, "R-LOOP") // a truthy @breakIf / @continueIf acts on its loop wherever it sits in the body (also under @elseif)
 			m.RunPrefixKW(s, "R-PREFIXKW")
 			m.RunEmit(s, "R-EMIT")
 			s.RequireMin("R-TRUTH", 12, "7 table rows + 5 users")
